@@ -19,7 +19,9 @@ func IsTimeout(err error) bool {
 	if t {
 		return t
 	}
-	if e, ok := err.(net.Error); ok {
+	// the timeout may be wrapped (e.g. by the length-prefixed receive helpers)
+	var e net.Error
+	if errors.As(err, &e) {
 		return e.Timeout()
 	}
 	return false
